@@ -140,6 +140,45 @@ type zzFamily struct {
 	depth  int
 }
 
+// zzCheckFailure: malloc(n) returned 0. That is allowed only when the request can be satisfied neither from
+// its size class's free list, nor from the general free list, nor by growing memory within the maximum.
+func zzCheckFailure(t *testing.T, h *Heap, cfg *Config, n int32, desc string) {
+	mem := h.wazeroModule.Memory()
+	rd := func(a int32) int32 {
+		v, _ := mem.ReadUint32Le(h.wazeroCtx, uint32(a))
+		return int32(v)
+	}
+	need := (int64(n) + 7) / 8 * 8
+	base := h.Global__heap_base()
+	if cfg.HeapLFixedCap > 0 {
+		cls := -1
+		switch {
+		case need <= 24:
+			need, cls = 24, 0
+		case need <= 32:
+			need, cls = 32, 1
+		case need <= 48:
+			need, cls = 48, 2
+		case need <= 80:
+			need, cls = 80, 3
+		case need < 128:
+			need = 128
+		}
+		if cls >= 0 && rd(base+int32(8*cls)) > 0 {
+			t.Fatalf("COUNTEREXAMPLE %s = 0 although the free list of its size class (%d bytes) holds %d blocks", desc, need, rd(base+int32(8*cls)))
+		}
+	}
+	head := base + 32
+	for b, steps := rd(head+4), 0; b != head && steps < 1<<16; b, steps = rd(b+4), steps+1 {
+		if int64(rd(b)) >= need {
+			t.Fatalf("COUNTEREXAMPLE %s = 0 although the general free list holds a block of %d bytes at %d (%d needed)", desc, rd(b), b, need)
+		}
+	}
+	if room := int64(cfg.MemoryPagesMax)*KPageBytes - int64(h.Global__heap_ptr()); room >= need+KBlockHeadSize {
+		t.Fatalf("COUNTEREXAMPLE %s = 0 although %d bytes can still be had below the configured maximum of %d pages (%d needed with the header)", desc, room, cfg.MemoryPagesMax, need+KBlockHeadSize)
+	}
+}
+
 func TestVerifBounded(t *testing.T) {
 	thorough := os.Getenv("VERIF_TIER") == "thorough"
 	depth := 4
@@ -183,6 +222,8 @@ func TestVerifBounded(t *testing.T) {
 		{"after 200,200,136,200,200", small, []int32{200, 200, 136, 200, 200}, append(mallocs(24, 136, 200, 400), frees(5)...), depth},
 		{"after 6 x 24", small, []int32{24, 24, 24, 24, 24, 24}, append(mallocs(24, 48, 56, 136), frees(5)...), depth},
 		{"after 32,80,32,80,48,48", small, []int32{32, 80, 32, 80, 48, 48}, append(mallocs(32, 80, 48, 112), frees(5)...), depth},
+		// memory at its maximum: big blocks come and go, small requests must still be served from what is free
+		{"exhaustion", []*Config{cfg(1, 1, 1000, 0), cfg(1, 1, 1000, 2), cfg(1, 2, 1000, 1)}, nil, append(append(mallocs(24, 40, 200, 30000, 60000), rels(-8, 0)...), frees(3)...), depth},
 		// requests sized to end at, just before and just behind the current heap top and the next page boundaries
 		{"page boundaries", []*Config{cfg(1, 3, 1000, 0), cfg(1, 3, 1000, 2), cfg(1, 2, 4096, 1), cfg(2, 4, 65536, 0)}, nil,
 			append(append(rels(-24, -16, -8, 0, 8, 16, 24, 65536-16, 65536-8, 65536, 65536+8, 65536+16, 2*65536-8, 2*65536, 2*65536+8), mallocs(8, 1000)...), frees(2)...), depth - 1},
@@ -237,6 +278,9 @@ func TestVerifBounded(t *testing.T) {
 						ptr := h.Malloc(n)
 						started.Store(0)
 						if ptr == 0 {
+							if n > 0 {
+								zzCheckFailure(t, h, cfg, n, desc)
+							}
 							return
 						}
 						mallocsOK++
@@ -333,5 +377,5 @@ func TestVerifBounded(t *testing.T) {
 		sj += fmt.Sprintf("%q", x)
 	}
 	sj += "]"
-	fmt.Printf("BOUNDED {\"cases\": %d, \"nontrivial\": %d, \"samples\": %s, \"bound\": \"every history of at most the stated depth in each family (malloc of a size from the family's set, or of a size relative to the room below the heap top; free of one of the first live blocks), after every operation: alignment, bounds, size, no overlap, contents of live blocks, free lists well-formed, blocks tile the heap; families: %s\"}\n", cases, nontrivial, sj, strings.Join(bounds, "; "))
+	fmt.Printf("BOUNDED {\"cases\": %d, \"nontrivial\": %d, \"samples\": %s, \"bound\": \"every history of at most the stated depth in each family (malloc of a size from the family's set, or of a size relative to the room below the heap top; free of one of the first live blocks), after every operation: alignment, bounds, size, no overlap, contents of live blocks, free lists well-formed, blocks tile the heap, and a failed request could not have been served by its size class, the general list or growth; families: %s\"}\n", cases, nontrivial, sj, strings.Join(bounds, "; "))
 }
